@@ -4,6 +4,18 @@ def _op_in(*ops):
     s = set(ops)
     return lambda line: line.split(" ", 1)[0] in s
 
+
+def _c18_ambiguous(l):
+    import struct, math
+    try:
+        raw, me = l.split(" = ")[1].split(" ")[1].split(":")[:2]
+        f = lambda h: struct.unpack(">d", bytes.fromhex(h))[0]
+        a, e = f(raw), f(me)
+        a = a + 4 * math.pi if a < 0 else a
+        return a < e or a > 4 * math.pi - e
+    except Exception:
+        return False
+
 PROPS = {
     "C01": {
         "translators": ["translator_c01"],
@@ -615,3 +627,117 @@ PROPS["C17"] = {
                 "updateMinDistance_false_unchanged / isDistanceLess_partial"],
 }
 
+
+PROPS.update({
+    "C18": {
+        # (generator, quick n, thorough n); n = generated loops in total (16 shards).  Every loop gives one c18turn, one
+        # c18area, ~1.7 c18ta3, and (when applicable) c18cent / c18surf lines, every 6th iteration a c18parea line.
+        # quick ~ 20-30 s per shard (one 10^4-vertex loop costs ~10 s: List-indexed faithful model), thorough ~ 4-5 min.
+        "generators": [("c18", 12000, 130000)],
+        "modules": ["S2.Measures", "S2.Contain", "S2.Pred", "S2.Exact", "S2.STUV", "S2.F64"],
+        "rule": "valid loops (unit vertices, pairwise different, no antipodal neighbours, no crossing of non-adjacent edges — checked with the "
+                "library's exact predicates): regular and jittered star-shaped loops about a pole / cube corner / axis point / anywhere, radius 1e-6 .. 1.45; "
+                "tiny loops of 6e-8 .. 6e-7 rad (1e-14 .. 1e-12 sr), snapped to level-30 cell centres or not; slivers (out along an arc of "
+                "1e-3 .. 2.5 rad at +w, back at -w, w = 3e-16, 1e-15, 1e-12, 1e-9); zero-area triangles of three EXACTLY collinear points on a "
+                "coordinate great circle; great-circle loops (regular, radius pi/2 +- 0, 1e-9, 1e-6, 3e-6, 1e-5, 2e-5, 1e-3: fan diagonals of ~180 "
+                "degrees) and triangles with one edge of pi - {1e-4,1e-5,9e-6,1e-6,1e-8}; loops larger than a hemisphere (radius pi/2+0.02 .. pi-0.02); "
+                "loops around both poles (full longitude span: IsNormalized cannot take its shortcut); cell boundaries of every level; dense small loops "
+                "(100..3000 vertices, area 0.01 .. 3 x turningAngleMaxError: the curvature test decides); snakes (a band along a sine curve, not "
+                "star-shaped, scale 1e-6 .. 1); a third of all "
+                "loops clockwise (= huge complement); every loop also inverted by Invert(). 3..10^4 vertices (3, 4, 5-8, 9-40, 41-200, "
+                "201-1000, 1001-3000, 10^4). Polygons: 1-4 concentric nested loops (+ optional far shell), loops given in random order. "
+                "c18turn: CanonicalFirstVertex / TurningAngle of the loop, ALL rotations (n <= 8) or 1-4 sampled ones, the inverse and its "
+                "rotations — model = S2.Measures on the implementation's own TurnAngle values, bit-exact; property = bit-identical under "
+                "rotation, sign bit flipped under inversion. c18area: raw surface integral, turningAngleMaxError, IsNormalized, Area of loop and "
+                "inverse (model = decision logic bit-exact), rotations, signed fans from other vertices, star triangulation from an interior point, "
+                "exact containment (S2.Contain) of the antipode of a cap that holds all vertices; tolerance E(n) = n*1e-14 (2n triangles x the "
+                "documented 5e-15 of PointArea; dominates turningAngleMaxError). c18surf: triangle sequence and sum of the origin-switching "
+                "surface integral vs the model with exact 180-degree tests. c18parea: Polygon.Area/Centroid = soft-float signed folds of the "
+                "loops' Area/Centroid, bit-exact. non-trivial = a c18area line whose normalised signed integral is within maxError of 0 or 4*pi "
+                "(the Gauss-Bonnet decision is consulted), a c18surf line whose origin moved (triangles != n-2), a c18turn line with n >= 4, "
+                "a c18parea line with a hole; distinct = distinct (op, arguments)",
+        "nontrivial": lambda l: (l.startswith("c18turn") and l.split(" ", 2)[1].count(";") >= 3)
+                                or (l.startswith("c18surf") and l.split(" = ")[-1].count("|") + 1 != l.split(" ", 2)[1].count(";") + 1 - 2)
+                                or (l.startswith("c18parea") and ";1:" in ";" + l.split(" = ")[-1].split(" ")[0])
+                                or (l.startswith("c18area") and _c18_ambiguous(l)),
+        "trusted_base": [
+            "libm is NOT modelled (S2.F64 has no atan/atan2/tan/asin): TurnAngle, SignedArea/PointArea, TrueCentroid and Angle() > maxLength are "
+            "parameters of the model; in the oracle the implementation's own values travel on the line (TurnAngle per vertex in both directions, "
+            "SignedArea per triangle through the recording callback of the hook), the 180-degree tests are decided in exact rational arithmetic "
+            "(lines within 1e-15 of the threshold are not judged)",
+            "NOT proved (partial): every numeric sentence — area + area(inverse) = 4*pi, triangulation additivity, start-vertex independence, "
+            "agreement with containment for slivers (defs AreaComplement, AreaStartIndependent, AreaTriangulation, AreaAgreesWithContainment); "
+            "judged on every run with tolerance E(n) = n*1e-14 against exact containment",
+            "SignLaws (float64(-1)*x = -(float64(1)*x) and the clamp commutes with negation, for non-NaN x) is a hypothesis of "
+            "turningAngle_invert; it is what every c18turn line checks bit-exactly on the inverse (soft-float model vs implementation)",
+            "hook s2/verif_export_c18.go: VerifLoopSurfaceIntegralFloat64/Point (call the unexported surfaceIntegral* with the caller's callback), "
+            "VerifLoopTurningAngleMaxError, VerifLoopBoundLngLength",
+            "the exact containment judge is Oracle.C04.fastGeo (= Pred.exactDecision on finite vectors, cross-checked by the C04 check)",
+        ],
+        "assumptions": [
+            "OrdOK: r3.Vector.Cmp is a strict total order on the loop's vertices = finite coordinates and no two positions with Cmp-equal "
+            "vertices (proved from validity: ordOK_v3lt); shown necessary (canonicalFirstVertex_invert_needs_distinct)",
+            "loops have >= 3 vertices in the rotation / inversion theorems (the one-vertex empty/full loops return +-2*pi by a separate branch)",
+            "Go's Loop.Validate does NOT check self-intersection (findValidationErrorNoIndex only); the generator checks it itself",
+        ],
+        "partial": ["AreaComplement, AreaStartIndependent, AreaTriangulation, AreaAgreesWithContainment are `def ... : Prop`, judged by Oracle.C18",
+                    "label: partial (exact rotation / negation invariance and the signed-sum structure proved; numeric consistency searched)"],
+    },
+})
+
+PROPS.update({
+    "C20": {
+        # (generator, quick n, thorough n): n = tessellator cases, the cheaper ops are emitted 2n times each.
+        # measured: n = 9600 -> 105 600 lines, 21 s wall on 16 cores (harness + oracle); thorough ~ 4 min
+        "generators": [("c20", 9600, 96000)],
+        "modules": ["S2.Approx", "S2.F64", "S2.F64Extra", "S2.STUV", "S2.CellID", "S2.Hilbert"],
+        "rule": "c20tess: geodesic edges (proj) / planar edges (unproj) x {plate carree, mercator} x scales {pi, 180, 1, 2^20, 1e-3, "
+                "20037508.34 (web mercator metres), 0.5, 648000 (arc seconds)} x tolerances {1e-13, 1, 10^U(-13,-11), 10^U(-2,0), 10^U(-13,0)}; "
+                "edge centre class: equator crossing / antimeridian crossing / both / high latitude (plate carree to 89.9 deg, mercator to 85 deg, "
+                "89 deg for tolerances >= 1e-7) / uniform; direction east-west, along a meridian (incl. over the pole), random; mirrored about the equator "
+                "(equal |lat|, worst case of a midpoint estimate); an endpoint exactly at a pole (plate carree); length <= 250*sqrt(tol) so that chains stay "
+                "below ~500 vertices; planar inputs also given as unwrapped representatives (+- one period). The harness measures by dense sampling "
+                "(up to 1024 points per output segment, 120 000 evaluations per case) the largest distance from a point of the OUTPUT chain to the INPUT edge "
+                "(proj: planar segment mapped back vs geodesic, DistanceFromSegment; unproj: geodesic chain vs the projected planar edge, golden-section search "
+                "for the nearest curve point); the oracle compares exactly with tol*(1+2^-20)+2^-50 and checks first / last vertex (modulo the wrap period) "
+                "and that consecutive planar vertices are at most half a period apart. c20wrap: WrapDestination / Interpolate bit-exact vs the soft-float model "
+                "(operands half a period apart +- ulps, whole periods apart, 1e-9 periods apart). c20projrt: Unproject(Project(p)) for points near poles, axis "
+                "points, antimeridian, equator, cube corners. c20subs: polylines of 0..300 vertices (straight with lateral noise about the tolerance, smooth curves, "
+                "back-tracking, random walks, zig-zags of amplitude about the tolerance; repeated vertices, returns to earlier vertices (A,B,A), closed, edges "
+                "longer than 90 deg and nearly antipodal, start points near poles / antimeridian / cube corners), step length tol*10^U(-1.5,2.5): indices compared with "
+                "the Lean loop run on the findEndVertex trace read through the hook; structure judged exactly; every dropped vertex's distance to its covering "
+                "segment measured in Go. c20snapc / c20snapi: levels 0..30 (and NewCellIDSnapper()) / exponents 0..10 on cell corners (exact and nudged inwards "
+                "by 1e-16..1e-3), cell edge midpoints, half-way points of the integer grid, near-pole / antimeridian points, axis points: the result is recomputed "
+                "bit-exactly (cell centre) resp. against the grid site recomputed from integer coordinates; |p-q|^2 compared exactly with the declared radius. "
+                "c20rad: all 31 levels / 11 exponents: radius formula bit-exact, inverse functions. "
+                "non-trivial = a c20tess line whose chain has >= 3 vertices, a c20subs line with >= 3 vertices, any c20snap*/c20projrt line; distinct = distinct (op, arguments)",
+        "nontrivial": lambda l: (l.startswith("c20tess") and l.split(" = ", 1)[-1].split(" ", 1)[0] not in ("1", "2"))
+                                or (l.startswith("c20subs") and l.split(" ")[2].count(",") >= 2)
+                                or l.startswith("c20snap") or l.startswith("c20projrt"),
+        "trusted_base": [
+            "the distances that are compared with the tolerances (c20tess maxdev, c20subs maxdrop) are MEASURED by the Go harness in float64 by dense "
+            "sampling (s2.DistanceFromSegment, ChordAngleBetweenPoints, the projection's own Unproject); the oracle only compares them exactly, with the "
+            "stated slack tol*2^-20 + 2^-50",
+            "integer lat-lng grid membership uses Go's libm (PointFromLatLng of the rounded integer coordinates); cell-centre membership and all snap "
+            "distances are decided exactly in the oracle",
+            "libm is not modelled: IntLatLngSnapper.SnapPoint, exponentForMaxSnapRadius, Project / Unproject and findEndVertex's trigonometry are judged, not modelled",
+            "export hooks s2/verif_export_c20.go (build tag verif): findEndVertex, tessellator threshold / estimate, the four unexported snap-radius functions",
+        ],
+        "assumptions": [
+            "tessellator inputs: unit-length points, edges shorter than 179.9 deg, Mercator latitudes <= 85 deg (89 deg for tolerances >= 1e-7) — the library documents "
+            "that Mercator does not work at the poles, and its recursion has no depth bound (the model uses fuel)",
+            "SubsampleVertices theorems assume the findEndVertex contract (index < result <= last), which is proved for the control-flow model and checked on "
+            "every generated case through the hook",
+            "polylines have no antipodal neighbours; no NaN coordinates",
+        ],
+        "partial": ["all tolerance claims are judged, not proved: SubsampleWithinTolerance, TessellatorEstimateSound, SnapCellIDWithinRadius are `def ... : Prop`; "
+                    "AppendProjected_within_partial / AppendUnprojected_within_partial are Thm(hyp) under the abstract soundness of the error test"],
+        "level_text": "proof (Lean 4): 38 theorems — SubsampleVertices loop over an abstract findEndVertex (first index, strictly increasing, in range, last vertex "
+                      "kept in value, no equal neighbours, fuel sufficiency), findEndVertex control flow meets the contract, tessellator bisection over an abstract "
+                      "projection (endpoints, every leaf passed the test, sphere continuity, tolerance under the soundness hypothesis), snap-radius inverse "
+                      "functions for all levels (bit-exact soft-float)",
+        "level_note": "partial: every numeric tolerance is judged by the oracle only. Findings: D15 (scale factor not applied), pole-crossing edges "
+                      "(planar chain jumps by a whole period: projected_planar_chain_can_break), NewCellIDSnapper radius 0, IntLatLngSnapper.SnapPoint "
+                      "snaps on a radian grid with int32 overflow",
+    },
+})
